@@ -72,7 +72,9 @@ class C14:
     def to_harness(self, c):
         doc = {"buildpack": {"uri": c["bp_uri"]}, "dependencies": [{"uri": d} for d in c["deps"]], "platform": {"os": c["os"]}}
         return {"id": c["id"], "src": [list(s.encode()) for s in c["src"]], "package_toml": list(render_doc(doc, 0).encode()),
-                "paths": [[list(k.encode()), list(v.encode())] for k, v in c["paths"]], "stale_siblings": c["id"] % 2 == 1}
+                "paths": [[list(k.encode()), list(v.encode())] for k, v in c["paths"]], "stale_siblings": c["id"] % 2 == 1,
+                # the source directory (or its package.toml) reached through a symbolic link: every third case
+                "via_link": [None, None, None, "dir", None, "file"][c["id"] % 6]}
 
     def run_impl(self, cases, workdir):
         obs = run_harness(self.stream, [self.to_harness(c) for c in cases], workdir)
